@@ -39,6 +39,13 @@ def reconn_scenarios(tier, rng):
     for j in range(4 if tier == "quick" else 40):
         sc = S("ka-h%d" % j, [P(rng.choice((0, 1, 2)))], ["conn"], [], opts=dict(opts, quietMs=300))
         out.append(sc)
+    # a slow response to an abandoned application ping arrives while no ping is outstanding: it belongs to nobody
+    # and must not count for the keep-alive ping that follows (the peer is silent from then on)
+    for j in range(2):
+        sc = S("ka-late%d" % j, [P(1)], ["conn"], [{"p": "PINGREQ", "n": 1, "o": "lateAck"}] + [{"p": "PINGREQ", "n": k, "o": "dropAck"} for k in (2, 3, 4)],
+               opts=dict(opts, pingMs=60))
+        sc["reqs"] = [{"k": "ping", "ms": 3, "at": "conn"}] + sc["reqs"]
+        out.append(sc)
     # the application pings too (Client.Ping is part of the public interface): PINGRESPs carry no identifier,
     # and every ping of the keep-alive loop must still get its response while the broker answers every PINGREQ
     for j in range(3 if tier == "quick" else 20):
